@@ -198,7 +198,8 @@ impl Request {
             if line == "\r\n" {
                 break;
             } else {
-                let line_without_crlf = line.strip_suffix("\r\n").to_error(RequestError::Request)?;
+                let line_without_crlf =
+                    line.strip_suffix("\r\n").to_error(RequestError::Request)?;
                 let mut line_parts = line_without_crlf.splitn(2, ':');
                 headers.add(
                     HeaderType::from(line_parts.next().to_error(RequestError::Request)?),
@@ -301,7 +302,8 @@ impl Request {
             if line == "\r\n" {
                 break;
             } else {
-                let line_without_crlf = line.strip_suffix("\r\n").to_error(RequestError::Request)?;
+                let line_without_crlf =
+                    line.strip_suffix("\r\n").to_error(RequestError::Request)?;
                 let mut line_parts = line_without_crlf.splitn(2, ':');
                 headers.add(
                     HeaderType::from(line_parts.next().to_error(RequestError::Request)?),
